@@ -16,55 +16,55 @@ import (
 // children (swapped operands, the flag of another variable, a name instead of a value)
 // type-checks – all of these are strings and bools – and is only visible here.
 var wiringTable = map[string]string{
-	"StringToString.value@evaluateStringLiteral":                  "Value()",
-	"UnaryOperation.expr@evaluateUnaryOperation":                  "eval:Expression()",
-	"UnaryOperation.operator@evaluateUnaryOperation":              "Operator()",
-	"UnaryOperation.valueType@evaluateUnaryOperation":             "Expression().ValueType()",
-	"Print.value@evaluatePrint":                                   "eval:Expressions()[*]",
-	"Panic.value@evaluatePanic":                                   "eval:Expression()",
-	"WriteFile.append@evaluateWrite":                              "eval:Append()",
-	"WriteFile.content@evaluateWrite":                             "eval:Data()",
-	"WriteFile.path@evaluateWrite":                                "eval:Path()",
-	"IfStart.condition@evaluateIf":                                "eval:IfBranch().Condition()",
-	"ElseIfStart.condition@evaluateIf":                            "eval:ElseIfBranches()[*].Condition()",
-	"ForCondition.condition@evaluateFor":                          "eval:Condition()",
-	"VarDefinition.global@evaluateVarDefinition":                  "Variables()[*].Global()",
-	"VarDefinition.name@evaluateVarDefinition":                    "Variables()[*].Name()",
-	"VarDefinition.value@evaluateVarDefinition":                   "eval:Values()[*]",
-	"VarDefinition.global@evaluateVarDefinitionCallAssignment":    "Variables()[*].Global()",
-	"VarDefinition.name@evaluateVarDefinitionCallAssignment":      "Variables()[*].Name()",
-	"VarDefinition.value@evaluateVarDefinitionCallAssignment":     "eval:Call()",
-	"VarDefinition.global@evaluateVarAssignment":                  "Variables()[*].Global()",
-	"VarDefinition.name@evaluateVarAssignment":                    "Variables()[*].Name()",
-	"VarDefinition.value@evaluateVarAssignment":                   "eval:Values()[*]",
-	"VarDefinition.global@evaluateVarAssignmentCallAssignment":    "Variables()[*].Global()",
-	"VarDefinition.name@evaluateVarAssignmentCallAssignment":      "Variables()[*].Name()",
-	"VarDefinition.value@evaluateVarAssignmentCallAssignment":     "eval:Call()",
-	"SliceAssignment.global@evaluateSliceAssignment":              "Variable.Global()",
-	"SliceAssignment.index@evaluateSliceAssignment":               "eval:Index()",
-	"SliceAssignment.name@evaluateSliceAssignment":                "Name()",
-	"SliceAssignment.value@evaluateSliceAssignment":               "eval:Value()",
-	"VarEvaluation.global@evaluateVarEvaluation":                  "Variable.Global()",
-	"VarEvaluation.name@evaluateVarEvaluation":                    "Variable.Name()",
-	"SliceEvaluation.index@evaluateSliceEvaluation":               "eval:Index()",
-	"SliceEvaluation.name@evaluateSliceEvaluation":                "eval:Value()",
-	"StringSubscript.startIndex@evaluateStringSubscript":          "eval:StartIndex()",
-	"StringSubscript.value@evaluateStringSubscript":               "eval:Value()",
-	"FuncStart.name@evaluateFunctionDefinition":                   "Name()",
-	"FuncStart.params@evaluateFunctionDefinition":                 "Params()[*].Name()",
-	"FuncStart.returnTypes@evaluateFunctionDefinition":            "ReturnTypes(),ReturnTypes()[*]",
-	"FuncCall.args@evaluateFunctionCall":                          "eval:Args()[*]",
-	"FuncCall.name@evaluateFunctionCall":                          "Name()",
-	"FuncCall.returnTypes@evaluateFunctionCall":                   "ReturnTypes(),ReturnTypes()[*]",
-	"SliceInstantiation.values@evaluateSliceInstantiation":        "eval:Values()[*]",
-	"Input.prompt@evaluateInput":                                  "eval:Prompt()",
-	"Copy.destination@evaluateCopy":                               "Destination().Name()",
-	"Copy.global@evaluateCopy":                                    "Destination().Global()",
-	"Copy.source@evaluateCopy":                                    "eval:Source()",
-	"Exists.path@evaluateExists":                                  "eval:Path()",
-	"StringLen.value@evaluateLen":                                 "eval:Expression()",
-	"SliceLen.name@evaluateLen":                                   "eval:Expression()",
-	"ReadFile.path@evaluateRead":                                  "eval:Path()",
+	"StringToString.value@evaluateStringLiteral":               "Value()",
+	"UnaryOperation.expr@evaluateUnaryOperation":               "eval:Expression()",
+	"UnaryOperation.operator@evaluateUnaryOperation":           "Operator()",
+	"UnaryOperation.valueType@evaluateUnaryOperation":          "Expression().ValueType()",
+	"Print.value@evaluatePrint":                                "eval:Expressions()[*]",
+	"Panic.value@evaluatePanic":                                "eval:Expression()",
+	"WriteFile.append@evaluateWrite":                           "eval:Append()",
+	"WriteFile.content@evaluateWrite":                          "eval:Data()",
+	"WriteFile.path@evaluateWrite":                             "eval:Path()",
+	"IfStart.condition@evaluateIf":                             "eval:IfBranch().Condition()",
+	"ElseIfStart.condition@evaluateIf":                         "eval:ElseIfBranches()[*].Condition()",
+	"ForCondition.condition@evaluateFor":                       "eval:Condition()",
+	"VarDefinition.global@evaluateVarDefinition":               "Variables()[*].Global()",
+	"VarDefinition.name@evaluateVarDefinition":                 "Variables()[*].Name()",
+	"VarDefinition.value@evaluateVarDefinition":                "eval:Values()[*]",
+	"VarDefinition.global@evaluateVarDefinitionCallAssignment": "Variables()[*].Global()",
+	"VarDefinition.name@evaluateVarDefinitionCallAssignment":   "Variables()[*].Name()",
+	"VarDefinition.value@evaluateVarDefinitionCallAssignment":  "eval:Call()",
+	"VarDefinition.global@evaluateVarAssignment":               "Variables()[*].Global()",
+	"VarDefinition.name@evaluateVarAssignment":                 "Variables()[*].Name()",
+	"VarDefinition.value@evaluateVarAssignment":                "eval:Values()[*]",
+	"VarDefinition.global@evaluateVarAssignmentCallAssignment": "Variables()[*].Global()",
+	"VarDefinition.name@evaluateVarAssignmentCallAssignment":   "Variables()[*].Name()",
+	"VarDefinition.value@evaluateVarAssignmentCallAssignment":  "eval:Call()",
+	"SliceAssignment.global@evaluateSliceAssignment":           "Variable.Global()",
+	"SliceAssignment.index@evaluateSliceAssignment":            "eval:Index()",
+	"SliceAssignment.name@evaluateSliceAssignment":             "Name()",
+	"SliceAssignment.value@evaluateSliceAssignment":            "eval:Value()",
+	"VarEvaluation.global@evaluateVarEvaluation":               "Variable.Global()",
+	"VarEvaluation.name@evaluateVarEvaluation":                 "Variable.Name()",
+	"SliceEvaluation.index@evaluateSliceEvaluation":            "eval:Index()",
+	"SliceEvaluation.name@evaluateSliceEvaluation":             "eval:Value()",
+	"StringSubscript.startIndex@evaluateStringSubscript":       "eval:StartIndex()",
+	"StringSubscript.value@evaluateStringSubscript":            "eval:Value()",
+	"FuncStart.name@evaluateFunctionDefinition":                "Name()",
+	"FuncStart.params@evaluateFunctionDefinition":              "Params()[*].Name()",
+	"FuncStart.returnTypes@evaluateFunctionDefinition":         "ReturnTypes(),ReturnTypes()[*]",
+	"FuncCall.args@evaluateFunctionCall":                       "eval:Args()[*]",
+	"FuncCall.name@evaluateFunctionCall":                       "Name()",
+	"FuncCall.returnTypes@evaluateFunctionCall":                "ReturnTypes(),ReturnTypes()[*]",
+	"SliceInstantiation.values@evaluateSliceInstantiation":     "eval:Values()[*]",
+	"Input.prompt@evaluateInput":                               "eval:Prompt()",
+	"Copy.destination@evaluateCopy":                            "Destination().Name()",
+	"Copy.global@evaluateCopy":                                 "Destination().Global()",
+	"Copy.source@evaluateCopy":                                 "eval:Source()",
+	"Exists.path@evaluateExists":                               "eval:Path()",
+	"StringLen.value@evaluateLen":                              "eval:Expression()",
+	"SliceLen.name@evaluateLen":                                "eval:Expression()",
+	"ReadFile.path@evaluateRead":                               "eval:Path()",
 }
 
 var reAccessorChain = regexp.MustCompile(`(VALUE\()?[A-Za-z_]+\.[A-Za-z_]+((?:\.[A-Za-z]+\(\)(?:\[\*\])?|\.[A-Z][A-Za-z]*)+)`)
